@@ -564,7 +564,7 @@ func GenTarget(t *rapid.T, o GenOpts, label string) *State {
 	if rapid.IntRange(0, 4).Draw(t, label+"crypto") == 0 {
 		in := s.Intfs[rapid.IntRange(0, n-1).Draw(t, label+"cryptoIntf")]
 		cm := "crypto-" + in.Name
-		np := rapid.IntRange(1, 4).Draw(t, label+"cryptoN")
+		np := rapid.IntRange(1, 5).Draw(t, label+"cryptoN")
 		for k := 1; k <= np; k++ {
 			e := &CryptoEntry{Seq: k, Kind: "ipsec-isakmp", Peers: []string{fmt.Sprintf("10.9.9.%d", k)}}
 			if rapid.Bool().Draw(t, fmt.Sprintf("%scf%d", label, k)) {
@@ -757,7 +757,25 @@ func (s *State) mutate(t *rapid.T, label string) string {
 	case 12: // crypto changes
 		for _, cn := range sortedKeys(s.Crypto) {
 			l := s.Crypto[cn]
-			switch rapid.IntRange(0, 6).Draw(t, label+"cop") {
+			switch rapid.IntRange(0, 8).Draw(t, label+"cop") {
+			case 7:
+				// the device keeps the first and the last entry, numbered 1
+				// and 3: the entries the target adds meet a gap followed by
+				// an occupied number
+				if len(l) < 3 {
+					return "noop"
+				}
+				l[len(l)-1].Seq = 3
+				s.Crypto[cn] = []*CryptoEntry{l[0], l[len(l)-1]}
+				return "cryptoSparseKept"
+			case 8:
+				// as before, but number 3 is held by an entry of a peer the
+				// target does not have
+				if len(l) < 3 {
+					return "noop"
+				}
+				s.Crypto[cn] = []*CryptoEntry{l[0], {Seq: 3, Kind: "ipsec-isakmp", Peers: []string{"10.9.9.77"}}}
+				return "cryptoSparseForeign"
 			case 4, 5:
 				// entries removed on the device (the target adds them), the
 				// numbering of the rest possibly keeps a gap
@@ -928,6 +946,16 @@ func GenPair(t *rapid.T, o GenOpts) *Pair {
 	n := rapid.IntRange(0, 6).Draw(t, "nOps")
 	for i := 0; i < n; i++ {
 		p.Ops = append(p.Ops, p.A.mutate(t, fmt.Sprintf("op%d", i)))
+	}
+	if p.Mode == "derived" && rapid.IntRange(0, 9).Draw(t, "routingOnly") == 0 {
+		// The device was fully managed once; the target now is one of a
+		// router with managed=routing_only: routes, no interface
+		// definitions, no ACLs, no crypto.
+		p.Mode = "routingOnly"
+		p.B.Intfs = nil
+		p.B.ACLs = map[string][]*Entry{}
+		p.B.Crypto = map[string][]*CryptoEntry{}
+		p.Ops = append(p.Ops, "routingOnlyTarget")
 	}
 	if p.Mode == "derived" && rapid.IntRange(0, 7).Draw(t, "plant") == 0 {
 		p.Ops = append(p.Ops, plantInsertRange(t, p.A, p.B))
